@@ -27,8 +27,8 @@ EXPLANATION = (
     "to the list the block iterates over; every Network.connect of a node-set adder that declares `bandwidth` passes it; "
     "R20.6 each episode is built from a freshly parsed / deep-copied scenario dict (the loaders consume theirs); R20.7 every "
     "resolved listening port reaches the append in _set_software_listen_on_ports (number or name), and no scenario mapping is read "
-    "R20.8 the numeric settings this property depends on are never tested by truthiness (`x or default`, `if x:`), because 0 is a legal value for them. "
-    "by position (`list(m.values())[i]`). NOT decided: "
+    "by position (`list(m.values())[i]`). R20.8 the numeric settings this property depends on are never tested by truthiness (`x or default`, `if x:`) - 0 is a legal value for them. "
+    "NOT decided: "
     "inventory equality for arbitrary scenario files and behavioural identity under re-serialisation."
 )
 TECHNIQUE = "static: key-guard/read agreement, schema-option reader inventory, local dataflow of declared values into constructors, loader sibling agreement (ACL blocks, node-set links), fresh-dict return check of the episode schedulers"
